@@ -39,7 +39,7 @@ fn c15_1e_relative_distance_range() {
     kani::cover!(r > 0.0 && r < 1.0);
 }
 
-// @ob id=C15.1b strength=bounded tier=thorough timeout=7200 bound="min, max, distances restricted to 4 significant mantissa bits" fn=track/sub/spatial_builder.rs::SpatialTrackDistances::relative_distance
+// @ob id=C15.1b strength=bounded tier=disabled bound="min, max, distances restricted to 4 significant mantissa bits" fn=track/sub/spatial_builder.rs::SpatialTrackDistances::relative_distance
 // @req 0 <= min < max <= 1e6, d1 <= d2
 // @ens relative distance is non-decreasing in the distance (so the attenuation is non-increasing)
 #[kani::proof]
